@@ -185,7 +185,14 @@ pub fn valid_encoding(kind: usize, ch: &mut Ch, seed: &[u16]) -> Vec<u8> {
             let addrs: Vec<u64> = if m > 16 { (0..m - 15).map(|i| i as u64 * 3).collect() } else { vec![] };
             StackOutputs::new(st, addrs).unwrap().to_bytes()
         }
-        8 => LibraryPath::new(["std::math::u64", "a", "abc::d_e::f1"][ch.pick(3)]).unwrap().to_bytes(),
+        8 => {
+            // written by hand (u16 length + bytes) so that the reserved first components and their
+            // near misses are among the starting points as well
+            let p = ["std::math::u64", "a", "abc::d_e::f1", "#sys", "#exec", "#sys::foo", "#exec::a::b"][ch.pick(7)];
+            let mut b = (p.len() as u16).to_le_bytes().to_vec();
+            b.extend_from_slice(p.as_bytes());
+            b
+        }
         9 => ProcedureName::try_from(["foo", "a_b1", "x"][ch.pick(3)].to_string()).map(|n| n.to_bytes()).unwrap_or_default(),
         10 => ProcedureId::new("std::math::u64::add").to_bytes(),
         _ => {
@@ -480,8 +487,35 @@ pub fn child(k: usize) {
     std::process::exit(3);
 }
 
+/// path / name strings around the reserved first components and the character rules, written as
+/// encodings by hand: each must be answered without a panic, and what is accepted re-encodes equal
+pub fn check_name_strings(ctx: &Ctx) {
+    let strings: Vec<&str> = vec![
+        "#sys", "#exec", "#anon", "#sys::foo", "#exec::a::b", "#sysx", "#sys:", "#sys::", "#exec::", "#", "##", "#sys\u{20ac}", "#exec\u{e9}::a", "#sys::\u{e9}", "a::", "::a", "a::::b", "a:b", ":", "::", "1a", "a::1b",
+        "a b", "a-b", "\u{e9}", "a::\u{1F600}", "A", "a_", "_a", "", " ",
+    ];
+    let mut items: Vec<(usize, Vec<u8>, String)> = vec![];
+    for s in &strings {
+        // library-path (u16 length), procedure-name (u8 length?) and namespace inside a library are
+        // all reached through these two decoders
+        for kind in [8usize, 9] {
+            let mut b = (s.len() as u16).to_le_bytes().to_vec();
+            b.extend_from_slice(s.as_bytes());
+            items.push((kind, b.clone(), s.to_string()));
+            let mut b1 = vec![s.len() as u8];
+            b1.extend_from_slice(s.as_bytes());
+            items.push((kind, b1, s.to_string()));
+        }
+    }
+    ctx.run_list("name-strings", &items, |(kind, bytes, s)| match decode(*kind, bytes) {
+        Ok(acc) => Ok(Info { nontrivial: Some(fp_str(&format!("{kind}{s}{}", bytes.len()))), classes: vec![format!("name-string:{}", if acc { "accepted" } else { "rejected" })], ..Info::default() }),
+        Err(v) => Err(v),
+    });
+}
+
 pub fn run(ctx: &Ctx) {
     *ctx.level.lock().unwrap() = "fault_enumeration".into();
+    check_name_strings(ctx);
     ctx.set_rule("for each of the 12 decoders: valid encodings (grammar-generated ASTs and libraries, data values, a real proof) under 1..3 generated mutations (bit flips, byte sets, truncation, extension, splices between two valid encodings, 16-/32-bit length fields set to boundary values, non-canonical field elements, random byte runs), every prefix of a valid encoding, raw random strings, deeply nested bodies decoded in a child process; oracle: no panic, an accepted value re-encodes and decodes to an equal value, verify() with a decoded statement part or proof does not panic; constructors from integers enumerated over values around p at five positions; non-trivial = mutated input longer than 8 bytes or accepted; distinct by (decoder, mutation kind, outcome)");
     let _ = golden();
     check_constructors(ctx);
